@@ -162,4 +162,19 @@ def NoTies (md start : Int) (refs qs : List Lbl) : Prop :=
     (offset start r q).natAbs ≤ md → (offset start r q').natAbs ≤ md →
     (offset start r q).natAbs ≠ (offset start r q').natAbs
 
+/-! ### exact copies (C06) -/
+
+def defaultParams : Params := ⟨1000, 1, -250, 1500, 1000, 1200⟩
+
+/-- the trimmed query that is an exact copy of the reference window `win` (absolute
+    coordinates), given on strand `rev` -/
+def copyQuery (id : Int) (win : List Int) (rev : Bool) : OMap :=
+  let rel := win.map (· - win.headD 0)
+  let last := lastD 0 rel
+  { id := id, length := last + 1, positions := if rev then (rel.map (last - ·)).reverse else rel, shift := 0 }
+
+/-- the true label-to-label pairs of a copy of `n` labels starting at reference label `i0+1` -/
+def truePairs (i0 n : Nat) (rev : Bool) : List (Int × Int) :=
+  (List.range n).map fun j => (((i0 + 1 + j : Nat) : Int), if rev then ((n - j : Nat) : Int) else ((j + 1 : Nat) : Int))
+
 end Coma.Spec
